@@ -264,7 +264,7 @@ func drawType(t *rapid.T, o TypeOpts, depth int) spec.T {
 		}
 		return spec.T{K: spec.KObject, Attrs: as}
 	case spec.KCapsule:
-		return spec.CapsuleT(rapid.SampledFrom([]string{"A", "B"}).Draw(t, "cap"))
+		return spec.CapsuleT(rapid.SampledFrom([]string{"A", "B", "A2"}).Draw(t, "cap"))
 	}
 	return spec.T{K: k}
 }
@@ -344,7 +344,7 @@ func drawUnknown(t *rapid.T, ty spec.T, o ValOpts) spec.V {
 		}
 	case ty.K == spec.KString:
 		if rapid.Bool().Draw(t, "hasprefix") {
-			p := rapid.SampledFrom([]string{"a", "foo", "ba", "\u00e9", "x-"}).Draw(t, "prefix")
+			p := rapid.SampledFrom([]string{"a", "foo", "ba", "\u00e9", "x-", "e\u0301", "cafe\u0301-", "A\u030a", "\u1100\u1161"}).Draw(t, "prefix")
 			r.Prefix, r.PrefixFull = &p, true
 		}
 	case ty.IsColl():
@@ -819,10 +819,11 @@ func mutateNode(t *rapid.T, x spec.T, o TypeOpts) (spec.T, string) {
 		as[i].Opt = !as[i].Opt
 		return spec.T{K: spec.KObject, Attrs: as}, op
 	case "othercapsule":
-		if x.Cap == "A" {
-			return spec.CapsuleT("B"), op
+		others := map[string][]string{"A": {"A2", "B"}, "A2": {"A", "B"}, "B": {"A", "A2"}}[x.Cap]
+		if len(others) == 0 {
+			others = []string{"A"}
 		}
-		return spec.CapsuleT("A"), op
+		return spec.CapsuleT(rapid.SampledFrom(others).Draw(t, "othercap")), op
 	case "todynamic":
 		return spec.Dynamic, op
 	default:
